@@ -1,6 +1,6 @@
 (* C16: exception modifiers only ever switch cosmetic options off. *)
-From Coq Require Import List NArith Bool Lia.
-From UF Require Import Model.Options.
+From Coq Require Import List Arith NArith ZArith Bool Lia.
+From UF Require Import Base.Lit Base.Bytes Model.Options Model.NetRule.
 Import ListNotations.
 Local Open Scope N_scope.
 
@@ -81,3 +81,31 @@ Qed.
 Example elemhide_generichide :
   get_cosmetic_option (Some (true, N.lor OptElemhide OptGenerichide)) = CosJS.
 Proof. reflexivity. Qed.
+
+(* ---- text level: all 2^9 subsets of the nine modifiers on an exception rule, through the parser ---- *)
+Definition c16_mods : list (bytes * N) :=
+  [($"elemhide", N.lor CosCSS CosGenericCSS); ($"generichide", CosGenericCSS); ($"jsinject", CosJS);
+   ($"document", CosAll); ($"urlblock", 0); ($"genericblock", 0); ($"content", 0); ($"extension", 0);
+   ($"important", 0)].
+Fixpoint select_mask {A} (mask : nat) (l : list A) : list A :=
+  match l with
+  | [] => []
+  | x :: l' => if Nat.odd mask then x :: select_mask (Nat.div2 mask) l' else select_mask (Nat.div2 mask) l'
+  end.
+Definition subset_text (sel : list (bytes * N)) : bytes :=
+  $"@@||example.org^" ++ (if isnil sel then [] else $"$" ++ join $"," (map fst sel)).
+Definition subset_expected (sel : list (bytes * N)) : N :=
+  N.ldiff CosAll (fold_right N.lor 0 (map snd sel)).
+Definition subset_ok (mask : nat) : bool :=
+  let sel := select_mask mask c16_mods in
+  match new_network_rule (subset_text sel) 1%Z with
+  | Ok r => N.eqb (get_cosmetic_option (Some (nr_whitelist r, nr_enabled r))) (subset_expected sel)
+  | _ => false
+  end.
+Lemma all_subsets_text_level : forallb subset_ok (seq 0 512) = true.
+Proof. vm_compute. reflexivity. Qed.
+Theorem subsets_text_level mask : (mask < 512)%nat -> subset_ok mask = true.
+Proof.
+  intro H. pose proof all_subsets_text_level as Hall. rewrite forallb_forall in Hall.
+  apply Hall. apply in_seq. lia.
+Qed.
